@@ -551,6 +551,10 @@ func scenarios() []scenario {
 	return []scenario{
 		{name: "S10-search-cancelled-midway-vs-writers", m: 2, pre: []opSpec{I(0, 0, 0), I(1, 1, 0), I(2, 2, 0)}, threads: [][]opSpec{{CS}, {X, R(0), I(3, 3, 0)}, {R(1)}}, maxQ: 2},
 		{name: "S11-remove-while-insert-is-linking-vs-count", m: 1, pre: []opSpec{I(0, 0, 0), I(1, 1, 0)}, threads: [][]opSpec{{I(2, 2, 0)}, {R(2)}, {L, S, L}}, maxQ: 2},
+		// the entry point is removed while an insert that has already picked it up is on its way: the removed vertex is the
+		// insert's only way into the graph (three live items, no pruning at M=2: nothing else can go wrong here)
+		{name: "S12-insert-enters-through-the-entrypoint-being-removed", m: 2, pre: []opSpec{I(0, 0, 1), I(1, 1, 0), I(2, 2, 0)}, threads: [][]opSpec{{I(3, 3, 0)}, {R(0)}}},
+		{name: "S13-insert-enters-through-the-entrypoint-being-removed-flat", m: 2, pre: []opSpec{I(0, 0, 0), I(1, 1, 0), I(2, 2, 0)}, threads: [][]opSpec{{I(3, 3, 0)}, {R(0)}, {S}}, maxQ: 2},
 		{name: "S1-insert-same-id-twice", m: 1, pre: []opSpec{I(0, 0, 0), I(1, 1, 0)}, threads: [][]opSpec{{I(2, 2, 0)}, {I(2, 3, 0)}}},
 		{name: "S2-insert-vs-remove-entrypoint", m: 1, pre: []opSpec{I(0, 0, 1), I(1, 1, 0)}, threads: [][]opSpec{{I(2, 2, 1)}, {R(0)}}},
 		{name: "S3-remove-linked-neighbours-vs-search", m: 2, pre: []opSpec{I(0, 0, 0), I(1, 1, 0), I(2, 2, 0)}, threads: [][]opSpec{{R(0)}, {R(1)}, {S}}, maxQ: 2},
@@ -571,6 +575,7 @@ func build(sc scenario) *explore.Scenario {
 	return &explore.Scenario{
 		Name:          sc.name,
 		MaxBoundQuick: sc.maxQ,
+		KeyNamesBound: true,
 		Configure:     func(s *vrt.Sched) { s.AtomicPoints = true; s.Horizon = 50000 },
 		Build: func(x *explore.Exec) func(vrt.EndReason) *explore.Violation {
 			world.Quiet()
